@@ -50,7 +50,7 @@ MANIFEST = dict(
     design_ref="DESIGN.md section 4 C04",
 )
 REQUIRED = ["Xmp.Resource.C04_release_total", "Xmp.Resource.C04_start_atomic", "Xmp.Resource.C04_load_atomic",
-            "Xmp.Resource.C04_stream_ownership", "Xmp.Resource.C04_tempfile", "Xmp.Resource.C04_reusable"]
+            "Xmp.Resource.C04_stream_ownership_partial", "Xmp.Resource.C04_tempfile", "Xmp.Resource.C04_reusable"]
 
 WRAP = ["-Wl,--wrap=malloc", "-Wl,--wrap=calloc", "-Wl,--wrap=realloc", "-Wl,--wrap=free",
         "-Wl,--wrap=libxmp_release_module_extras", "-Wl,--wrap=mkstemp", "-Wl,--wrap=fdopen"]
